@@ -14,13 +14,20 @@
    solids are covered by C14_tables.  C14_ring_apex_defect is about the generated body of ring's bisection loop and is
    conditional on three named facts about the real angle function geometry.angle_3pts (monotone in the apex height,
    defect 0 at height 0, no early stop while the bracket is enlarged) and on the loop terminating (partial correctness).
+   Round 7: C14_unit_triangle_counts (faces of unit_triangle for equal and unequal resolutions), C14_flat_ring_apex_defect
+   (closed form of the rim, apex angle of every triangle, N of them leave the requested defect - unconditional),
+   C14_ring_triangles_congruent (every triangle of a ring has the apex angle the bisection measures on vertices 1, 2),
+   C14_ring_apex_defect_geometric (for the geometric angle acos(dot/(|.||.|)) on vertices 1, 2: monotone defect and defect 0 of
+   the flat ring PROVED, only the no-early-stop hypothesis is left),
+   C14_sphere_uv_latitudes (n_lat distinct latitudes strictly between the poles), C14_rotation_helpers (the helpers
+   rotate_2d / rotate_around_axis of mouette/geometry/rotations.py are GENERATED too: geom_rotate_2d, geom_rotate_around_axis).
    Outside the generated model: the faces of sphere_fibonacci(build_surface) (scipy ConvexHull) and the loop subdivision
    inside icosphere (its base mesh, number of rounds and radial projection ARE generated and covered by C14_on_surface). *)
 From Coq Require Import ZArith List Bool Reals String.
 Import ListNotations.
 Require Import MV.Lib.Base MV.C14.Model MV.C14.Gen MV.C14.ProofsLib.
 Require Import MV.C14.ProofsGrid MV.C14.ProofsTri MV.C14.ProofsTorus MV.C14.ProofsSphere MV.C14.ProofsCyl
-               MV.C14.ProofsRing MV.C14.ProofsPoly MV.C14.ProofsTables MV.C14.ProofsCoords MV.C14.ProofsBisect MV.C14.ProofsAll.
+               MV.C14.ProofsRing MV.C14.ProofsPoly MV.C14.ProofsTables MV.C14.ProofsCoords MV.C14.ProofsBisect MV.C14.ProofsMore MV.C14.ProofsAll.
 Open Scope Z_scope.
 
 Theorem C14_rejects :
@@ -186,6 +193,67 @@ Theorem C14_on_surface :
      icosphere_rounds k = k /\ icosphere_loop_passes = 1).
 Proof. exact all_on_surface. Qed.
 Print Assumptions C14_on_surface.
+
+Theorem C14_unit_triangle_counts :
+  (forall nu nv u, unit_triangle_rejects nu nv u = false ->
+     zlen (unit_triangle_faces nu nv u) = 2 * roff nu nv - 2 * (nv - 1) - (Z.min nv nu - 1) - 2 /\
+     Forall (fun f : list Z => zlen f = 3) (unit_triangle_faces nu nv u)) /\
+  (forall nu nv u, unit_triangle_rejects nu nv u = false -> nv <= nu ->
+     zlen (unit_triangle_faces nu nv u) = (nv - 1) * (nv - 1)).
+Proof. exact tri_counts_all. Qed.
+Print Assumptions C14_unit_triangle_counts.
+
+Theorem C14_flat_ring_apex_defect : forall N (d : R) k, flat_ring_rejects N k = false ->
+  (forall i, 0 <= i <= N * k ->
+     nth (Z.to_nat (i + 1)) (flat_ring_coords Rops N d k) (0, 0, 0)%R = (cos (IZR i * flat_ang N d), sin (IZR i * flat_ang N d), 0)%R) /\
+  (let X := flat_ring_coords Rops N d k in
+   nth 0 X (1, 1, 1)%R = (0, 0, 0)%R /\
+   (forall f, In f (flat_ring_faces N k) -> exists i, 0 <= i < N * k /\ f = [0; i + 1; i + 2] /\
+      let p := nth (Z.to_nat (i + 1)) X (0, 0, 0)%R in let q := nth (Z.to_nat (i + 2)) X (0, 0, 0)%R in
+      on_unit_circle p /\ on_unit_circle q /\
+      (vx p * vx q + vy p * vy q = cos (flat_ang N d))%R /\ (vx p * vy q - vy p * vx q = sin (flat_ang N d))%R) /\
+   (IZR N * flat_ang N d = 2 * PI - flat_defect d)%R /\ (0 < flat_ang N d <= 2 * PI / IZR N)%R) /\
+  (0 <= flat_defect d <= 2 * PI - 1 / 100)%R /\ ((0 <= d < 2 * PI - 1 / 100)%R -> flat_defect d = d).
+Proof. exact flat_ring_apex. Qed.
+Print Assumptions C14_flat_ring_apex_defect.
+
+Theorem C14_ring_triangles_congruent : forall N (d : R) o k (h : R), ring_rejects N o k = false ->
+  let X := ring_coords Rops N d o k (0, 0, h)%R in
+  nth 0 X (1, 1, 1)%R = (0, 0, h)%R /\
+  forall f, In f (ring_faces N o k) -> exists a b, f = [0; a; b] /\
+    apex_congruent N h (nth (Z.to_nat a) X (0, 0, 0)%R) (nth (Z.to_nat b) X (0, 0, 0)%R).
+Proof. exact ring_congruent. Qed.
+Print Assumptions C14_ring_triangles_congruent.
+
+Theorem C14_ring_apex_defect_geometric : forall (N : Z) (d0 : R) (o : bool) (k : Z) (apex : vec R), ring_rejects N o k = false ->
+  let X := ring_coords Rops N d0 o k apex in
+  let A := nth 1 X (0, 0, 0)%R in let B := nth 2 X (0, 0, 0)%R in let d := ring_defect_clamp Rops d0 in
+  (A = (1, 0, 0)%R /\ B = ring_pt N 1) /\
+  ((forall a b, (0 <= a <= b)%R -> (g geo_angle A B N a <= g geo_angle A B N b)%R) /\ g geo_angle A B N 0 = 0%R) /\
+  ((forall h1 h2, (h1 = 0 /\ h2 = 10)%R \/ (10 <= h1 /\ h2 = 2 * h1)%R -> (g geo_angle A B N h2 < d)%R ->
+      (eps <= Rabs (g geo_angle A B N h1 - g geo_angle A B N h2))%R) ->
+   forall fuel s, do_while (step geo_angle A B N d) fuel (ring_bisect_init Rops) = Some s ->
+   exists h, ring_bisect_apex Rops (fst s) (snd s) = (0, 0, h)%R /\ (Rabs (g geo_angle A B N h - d) < eps)%R).
+Proof. exact ring_apex_geo. Qed.
+Print Assumptions C14_ring_apex_defect_geometric.
+
+Theorem C14_sphere_uv_latitudes : forall n L (center : vec R) (radius : R), sphere_uv_rejects n L = false ->
+  sphere_uv_coords Rops n L center radius =
+    vadd Rops center (vscale Rops radius (0, 0, 1)%R) ::
+    flat_map (fun i => map (sph_pt n L center radius i) (zrange L)) (zrange n) ++
+    [vadd Rops center (vscale Rops radius (0, 0, -1)%R)] /\
+  (forall i j, vz (sph_pt n L center radius i j) = (vz center + radius * cos (sph_phi n i))%R) /\
+  (forall i, 0 <= i < n -> (-1 < cos (sph_phi n i) < 1)%R) /\
+  (forall i i', 0 <= i < i' -> i' < n -> (cos (sph_phi n i') < cos (sph_phi n i))%R).
+Proof. exact sphere_latitudes. Qed.
+Print Assumptions C14_sphere_uv_latitudes.
+
+Theorem C14_rotation_helpers :
+  (forall a b z : R, geom_rotate_2d Rops (cos a, sin a, z) b = (cos (a + b), sin (a + b), 0)%R) /\
+  (forall (t a : vec R) (ang : R), dot3 a a = 1%R -> dot3 t t = 1%R -> dot3 a t = 0%R ->
+     let q := geom_rotate_around_axis Rops t a ang in dot3 q q = 1%R /\ dot3 q a = 0%R).
+Proof. exact rotation_helpers. Qed.
+Print Assumptions C14_rotation_helpers.
 
 Theorem C14_runtime_checker_sound : forall V F,
   (is_sphere (topo_of V F) = true -> sphere_like V F) /\ (is_torus (topo_of V F) = true -> torus_like V F) /\
